@@ -22,6 +22,9 @@
 (*                                         underneath carry the prefix       *)
 (*   [t |-> "unify",  x, y]                ociunify of two members          *)
 (*   [t |-> "debug",  x]                   ocidebug                         *)
+(*   [t |-> "fail",   at, x]               a registry (harness-made) whose  *)
+(*                                         listings fail with DENIED when   *)
+(*                                         they reach an element >= at      *)
 (*                                                                         *)
 (* The meaning of a stack is the STREAM of what happens when its listing   *)
 (* iterator is run by a consumer that never declines: page requests seen   *)
@@ -90,6 +93,12 @@ Page(nd, inner, eager, n) ==
 
 RECURSIVE Stream(_, _, _), Pager(_, _, _, _), Eager(_, _, _)
 
+\* A source that fails part-way: everything before the first item >= at, then the error.
+FailAt(s, at) ==
+  LET bad == {j \in 1..Len(s) : s[j].e = "item" /\ s[j].x >= at} IN
+  IF bad = {} THEN s
+  ELSE SubSeq(s, 1, (CHOOSE j \in bad : \A q \in bad : j <= q) - 1) \o <<Err("DENIED")>>
+
 \* The client side (ociclient.pager): request, yield the page, stop on a short page,
 \* otherwise continue after the final item (Link header or last=: the same target).
 Pager(nd, last, kind, fuel) ==
@@ -145,6 +154,7 @@ Stream(nd, a, kind) ==
          ELSE Stream(nd.x, a, kind)
     [] nd.t = "unify" -> Merge(Stream(nd.x, a, kind), Stream(nd.y, a, kind))
     [] nd.t = "http" -> IF kind = "refs" THEN Single(nd, kind) ELSE Pager(nd, a, kind, Fuel)
+    [] nd.t = "fail" -> FailAt(Stream(nd.x, a, kind), nd.at)
 
 \* Most iterators do nothing until they are run.  These do their work when they are
 \* created: ociunify (drains both members), ociclient.Referrers (sends its request),
@@ -155,6 +165,7 @@ Eager(nd, a, kind) ==
     [] nd.t = "http" -> IF kind = "refs" THEN Reqs(Stream(nd, a, kind)) ELSE <<>>
     [] nd.t = "debug" -> Eager(nd.x, a, kind)
     [] nd.t \in {"select", "sub"} -> IF kind = "repos" THEN <<>> ELSE Eager(nd.x, a, kind)
+    [] nd.t = "fail" -> <<>>
 
 \* A listing is a VALUE (ociregistry.Seq) that may be run more than once.  What was done
 \* when it was created is not done again; everything else is - from the beginning.
@@ -201,7 +212,7 @@ BigAgrees(nd, a, kind, k) ==
 RECURSIVE View(_, _), MayFail(_, _), Hops(_)
 View(nd, kind) ==
   CASE nd.t = "mem" -> IF nd.absent /\ kind # "repos" THEN {} ELSE nd.s
-    [] nd.t \in {"debug", "http"} -> View(nd.x, kind)
+    [] nd.t \in {"debug", "http", "fail"} -> View(nd.x, kind)
     [] nd.t = "select" -> IF kind = "repos" THEN View(nd.x, kind) \cap nd.p ELSE View(nd.x, kind)
     [] nd.t = "sub" -> IF kind = "repos" THEN {x - nd.lo : x \in {y \in View(nd.x, kind) : InSub(nd, y)}} ELSE View(nd.x, kind)
     [] nd.t = "unify" -> View(nd.x, kind) \cup View(nd.y, kind)
@@ -210,6 +221,7 @@ MayFail(nd, kind) ==
   CASE nd.t = "mem" -> nd.absent /\ kind # "repos"
     [] nd.t = "http" -> (kind # "refs" /\ nd.max > 0 /\ EffN(nd.n) > nd.max) \/ MayFail(nd.x, kind)
     [] nd.t = "unify" -> MayFail(nd.x, kind) \/ MayFail(nd.y, kind)
+    [] nd.t = "fail" -> TRUE
     [] OTHER -> MayFail(nd.x, kind)
 Hops(nd) ==
   CASE nd.t = "mem" -> 0
